@@ -165,6 +165,15 @@ def generate(run_index, seed, tier):
             name = "_".join("%s-%s" % (k, e[k]) for k in order)
             name = (name + "_" if name else "") + "events.json"
             sidecars.append({"path": (d + "/" if d else "") + name, "ents": e, "level": level, "content": _sidecar_content(g, level)})
+    if g.chance(0.35):
+        # per-subject copies: sidecars of the same level get the very same content (each is still a file of its own)
+        by_level = {}
+        for sdc in sidecars:
+            by_level.setdefault(sdc["level"], []).append(sdc)
+        for lv, group in sorted(by_level.items()):
+            if lv != "root" and len(group) >= 2:
+                for sdc in group[1:]:
+                    sdc["content"] = copy.deepcopy(group[0]["content"])
     # decoys
     decoys = []
     if g.chance(0.5) and not any(s["path"] == "events.json" for s in sidecars):
@@ -413,6 +422,7 @@ def execute(sc, script=None):
             out["applied"] = applied
             out["issues"] = ds.validate(check_for_warnings=warn)
             out["issues_again"] = ds.validate(check_for_warnings=warn)      # the same object is asked a second time
+            out["issues_other_flag"] = ds.validate(check_for_warnings=not warn)  # and once more with the other setting
             return True
         with fs:
             p = sim.run_one("bids", fn)
@@ -425,6 +435,12 @@ def execute(sc, script=None):
         applied, issues = out["applied"], out["issues"]
         got = sorted(str(_loc(i)) for i in issues)
         again = sorted(str(_loc(i)) for i in out["issues_again"])
+        with_w, only_e = (issues, out["issues_other_flag"]) if warn else (out["issues_other_flag"], issues)
+        sub = sorted(str(_loc(i)) for i in with_w if i.get("severity", 1) == 1)
+        if sorted(str(_loc(i)) for i in only_e) != sub:
+            viol("dataset-issues", "the same BidsDataset asked with warnings off returns %d issues, the error-severity subset of the "
+                 "answer with warnings on has %d" % (len(only_e), len(sub)), "errors-only-differs-dataset")
+            break
         if again != got:
             viol("dataset-issues", "a second validate() on the same BidsDataset gives other issues: only first %s, only second %s"
                  % ([x for x in got if x not in again][:5], [x for x in again if x not in got][:5]), "second-validate-differs")
